@@ -39,3 +39,7 @@ func (s *VerifZmodemSession) Flags() [7]bool {
 	return [7]bool{z.upload, z.clientFinished.Load(), z.serverFinished.Load(), z.errorOccurred.Load(),
 		z.stopped.Load(), z.cleaned.Load(), z.cmd.Load() != nil}
 }
+
+// Begun reports whether handleZmodemEvent has stored the session's writers, i.e. whether
+// its goroutine has begun (racy read of a plain field: for the harness only).
+func (s *VerifZmodemSession) Begun() bool { return s.z.serverIn != nil }
